@@ -7,8 +7,26 @@ repo = SCN.setup_repo()
 import numpy as np  # noqa: E402
 
 bad = []
-for sc in (SCN.SCENARIOS[0], SCN.SCENARIOS[5]):
-    s = SCN.make_sampler(sc, seed=3)
+from nautilus import Sampler  # noqa: E402
+
+
+def shifted(offset):
+    """Gaussian whose log-likelihood carries a large constant: weights near
+    the underflow / overflow thresholds of binary64"""
+    def like(x):
+        return -0.5 * float(np.sum(((x - 0.5) / 0.1)**2)) + offset
+    return like
+
+
+cases = [(dict(sc), None) for sc in (SCN.SCENARIOS[0], SCN.SCENARIOS[5])]
+for off in (-730.0, -738.0, -741.0, 690.0):
+    cases.append((dict(name='gauss{:+.0f}'.format(off), like='gauss'), off))
+for sc, off in cases:
+    if off is None:
+        s = SCN.make_sampler(sc, seed=3)
+    else:
+        s = Sampler(SCN.prior, shifted(off), n_dim=2, n_live=200, n_batch=50,
+                    n_networks=0, seed=3)
     s.run(n_eff=300, verbose=False)
     blobs = sc['like'] == 'gauss_blob'
     stat = {k: np.copy(getattr(s, k)) for k in (
@@ -21,8 +39,13 @@ for sc in (SCN.SCENARIOS[0], SCN.SCENARIOS[5]):
         counts_sum = np.zeros(len(p_w))
         first = None
         for rep in range(12):
-            r = s.posterior(equal_weight=True, equal_weight_boost=boost,
-                            return_blobs=blobs)
+            try:
+                r = s.posterior(equal_weight=True, equal_weight_boost=boost,
+                                return_blobs=blobs)
+            except Exception as e:
+                bad.append(dict(where=tag, what='raised {}: {}'.format(
+                    type(e).__name__, str(e)[:80])))
+                break
             pe, lwe, lle = r[0], r[1], r[2]
             rel = np.exp(lw - np.amax(lw)) * boost
             # recover multiplicities: rows keep their order
